@@ -277,7 +277,7 @@ def model_loc(case, obs):
         if n_rest >= 2:
             return "sysExit" if _has(pre, "atexit-unreg") else "restInt"
         if body_ok:
-            return "bodyDone"
+            return "raised0" if outcome == "exit0" else "bodyDone"
         if kill.get("started"):
             return "callBody" if "start" not in obs["bodylog"] else f"body:{len(obs['bodylog'])}"
         if not _has(pre, "is_file", name=".done"):
